@@ -305,7 +305,7 @@ func runP(c *kit.Ctx, r *kit.Rand, mode int) {
 func partP(c *kit.Ctx) int {
 	n := 240
 	if c.Thorough() {
-		n = 3000
+		n = 2000
 	}
 	for i := 0; i < n; i++ {
 		runP(c, c.Rand.Fork(), i%3)
